@@ -667,6 +667,8 @@ def _face_atoms(e: ast.AST, xp: str, bp: str) -> ast.AST:
     class T(ast.NodeTransformer):
         def visit_Call(self, node):
             fn = norm(node.func)
+            if fn in ("np.any", "any", "numpy.any") and len(node.args) == 1 and face(node.args[0]):
+                return ast.Name(id="SOME_" + face(node.args[0]), ctx=ast.Load())
             if fn in ("np.all", "all", "numpy.all", "bool") and len(node.args) == 1:
                 a = node.args[0]
                 if fn == "bool":
@@ -729,7 +731,7 @@ def r01_3(ctx: Ctx):
         imp = bool_equiv(ast.BoolOp(op=ast.Or(), values=[ast.UnaryOp(op=ast.Not(), operand=E), want]), ast.Constant(value=True))
         if imp is True:
             st_ib = OK
-        elif imp is False and atoms <= {"BOUNDS_NONE", "LOWER_OK", "UPPER_OK", "WRONG_FACE"}:
+        elif imp is False and atoms <= {"BOUNDS_NONE", "LOWER_OK", "UPPER_OK", "WRONG_FACE", "SOME_LOWER_OK", "SOME_UPPER_OK", "SOME_WRONG_FACE"}:
             st_ib, why = VIOLATION, f"in_bounds accepts points outside the box: `{norm(rets[-1].value)[:90] if rets else '?'}` does not imply all(x >= lower) and all(x <= upper)"
         else:
             why = f"cannot decide whether `{norm(rets[-1].value)[:90] if rets else '?'}` implies all(x >= lower) and all(x <= upper)"
@@ -742,7 +744,14 @@ def r01_3(ctx: Ctx):
     if len(loops) == 1 and len(rets) == 1 and isinstance(rets[0].value, ast.Name):
         xv = rets[0].value.id
         exits = [x for x in ast.walk(loops[0]) if isinstance(x, (ast.Break, ast.Return))]
-        if cond_is(loops[0].test, f"not in_bounds({xv})", {k: v for k, v in cdefs.items() if k != xv}) and any(isinstance(st, ast.Assign) and norm(st.targets[0]) == xv for st in loops[0].body) and not exits and cr.node.body.index(rets[0]) > cr.node.body.index(loops[0]):
+        from ..core import bool_equiv, parse_cond
+
+        exit_cond = ast.UnaryOp(op=ast.Not(), operand=loops[0].test)
+        exit_implies_inb = bool_equiv(ast.BoolOp(op=ast.Or(), values=[ast.UnaryOp(op=ast.Not(), operand=exit_cond), parse_cond(f"in_bounds({xv})")]), ast.Constant(value=True))
+        mentions_inb = any(isinstance(c, ast.Call) and norm(c.func) == "in_bounds" for c in ast.walk(loops[0].test))
+        if mentions_inb and exit_implies_inb is False:
+            st_l = VIOLATION  # the loop can be left while in_bounds(x) is false (an additional exit condition)
+        elif cond_is(loops[0].test, f"not in_bounds({xv})", {k: v for k, v in cdefs.items() if k != xv}) and any(isinstance(st, ast.Assign) and norm(st.targets[0]) == xv for st in loops[0].body) and not exits and cr.node.body.index(rets[0]) > cr.node.body.index(loops[0]):
             st_l = OK
         elif exits or cond_is(loops[0].test, f"in_bounds({xv})", cdefs):
             st_l = VIOLATION
